@@ -192,7 +192,7 @@ mutant: Hoare partition stays correct), C09/C06/C18: the reverted fixes of (a).
 (`/verif/seeded/<id>/`: `patch.diff`, `demo.cpp`, `notes.md`, `meta.json`).  Each was confirmed with
 `tools/seed_verify.sh`: the demonstration exits 0 on HEAD and non-zero with the patch, the 18
 pinned tests (examples target rebuilt) pass with the patch, then the property's quick check was run
-against the patched tree.  Rounds of 20 (one change per property; rounds 15 and 16 only for the five harnesses written last, C06, C09, C17, C18, C20; from round 2 on the agents were told which functions
+against the patched tree.  Rounds of 20 (one change per property; rounds 15, 16 and 17 only for the five harnesses written last, C06, C09, C17, C18, C20; from round 2 on the agents were told which functions
 earlier rounds had used and asked for a different function and mechanism, later rounds also for defects that need a
 history, two cooperating sites, a boundary value or a rarely used option).  Caught at once by the check as it stood:
 {rounds_line}.  Every miss exposed a hole in an alphabet; the check was strengthened until the change was caught and
@@ -226,7 +226,7 @@ above 2^16; C02/C07: deltas above 2^31; C19: odd integers above 2^52; C13: scale
 the special ones* (C09, C10, C06), *absolute magnitudes far from 1* (C15), *caller-owned containers that are used a
 second time* (C16), *caches whose entries were released while the container was kept* (C09: GeometryInfo::clear() then
 reuse of the map), *string lengths of both parities and beyond the length of the preceding record* (C17: cell names of
-2..100 characters) and *factors below one where only enlargements were enumerated* (C09/C06: magnification 0.5; found
+2..100 characters) *near misses of a filter key* (C06: same layer / other type), *documented append semantics of output containers* (C09: pre-filled result arrays) and *factors below one where only enlargements were enumerated* (C09/C06: magnification 0.5; found
 by a self-made change, not by a seed).
 
 **(d) Benign changes: looking for false alarms.**  The reverse experiment: 20 fresh sub-agents (property
